@@ -424,8 +424,14 @@ def A4(ctx: Ctx) -> RuleResult:
     ok = False
     if len(outs) == 1 and outs[0].kind == 'return':
         v = outs[0].value
-        if isinstance(v, Call) and call_name(v) == 'union' and v.args and isinstance(v.args[0], Comp):
-            comp = v.args[0]
+        src_it = None
+        if isinstance(v, Call) and call_name(v) == 'union' and v.args:
+            src_it = v.args[0]
+        elif isinstance(v, Call) and isinstance(v.func, Ext) and v.func.name in ('functools.reduce', 'reduce') and len(v.args) == 3 \
+                and isinstance(v.args[0], Ext) and v.args[0].name in ('operator.or_', 'or_') and flagset(ctx, v.args[2]) == frozenset():
+            src_it = v.args[1]  # DataType.union looked through (rule L4 checks it)
+        if isinstance(src_it, Comp):
+            comp = src_it
             ok = isinstance(comp.elt, Attr) and comp.elt.name == 'result' and comp.gens[0][1] == Attr(Sym('self', 'FunctionDefinition'), 'overloads') and not comp.gens[0][2]
     (r.ok('FunctionDefinition.result = union of overload results') if ok else r.fail('FunctionDefinition.result', f'not the union of the overload results: {[str(o) for o in outs]}', fi.where))
     # default_data_type table
